@@ -125,3 +125,35 @@ pub const EXTREME: &[&str] = &[
 pub fn extreme() -> BoxedStrategy<String> {
     proptest::sample::select(EXTREME).prop_map(|s| s.to_string()).boxed()
 }
+
+/// values whose evaluation never fails (given `$a: 1px; $b: (k: v, 2: 3); $c: a b c;` and `f`)
+pub fn safe() -> BoxedStrategy<String> {
+    let num = prop_oneof![
+        4 => (-20i32..200, proptest::sample::select(&["", "", "px", "em", "%", "deg", "s", "rem", "fr", "x"][..])).prop_map(|(n, u)| format!("{n}{u}")),
+        3 => (0u32..100000, 1u32..6, proptest::sample::select(&["", "px", "%", "em"][..])).prop_map(|(n, d, u)| format!("{}{u}", n as f64 / 10f64.powi(d as i32))),
+        1 => one_of(&["0", ".5", "-.25em", "1e3", "1e-3", "0.00001", "1234567.891", "0.30000000000000004", "100%", "-0.5", "+.5"]),
+    ];
+    let uni = one_of(&["\"é\"", "\"日本\"", "\"😀 x\"", "'ü'", "ünï", "\"a é\"", "\"\u{a0}\"", "'☃'"]);
+    let tricky = one_of(&["\"\\e9\"", "\"\\2603 \"", "\"a\\\"b\"", "\"it's\"", "'q\"q'", "\"\\\\\"", "\"\\a\"", "\"tab\\9 x\""]);
+    let leaf = prop_oneof![
+        20 => num,
+        8 => color(),
+        8 => one_of(&["\"a\"", "'b'", "\"\"", "\"a b\"", "\"x#{1+1}y\"", "foo", "bar-baz", "_x", "-moz-x", "a\\ b", "\\31 a", "x#{1}y", "#{a}b", "url(x.png)", "url(\"x y\")", "var(--x)", "var(--x, 1px)", "U+26", "!important", "true", "false", "null", "a, b", "a b", "[a b]", "(a, b)", "1 2 3", "1px solid red", "a / b", "10px/2px"]),
+        8 => uni,
+        1 => tricky,
+        8 => one_of(&["$a", "$c", "$a * 2", "$a + 1px", "nth($c, 2)", "map-get($b, k)", "length($c)", "f(2)", "f($a)", "1 + 2", "2 * 3.5", "10 % 3", "7 - 2", "\"a\" + \"b\"", "a + b", "1 + a", "math.div(10px, 4)", "math.div(1, 3)", "percentage(0.5)", "round(1.5)", "rgba(#abc, 0.5)", "lighten(red, 10%)", "mix(red, blue)", "darken(#abc, 5%)", "adjust-hue(red, 20deg)", "if(true, a, b)", "str-index(\"abc\", \"b\")", "unquote(\"x y\")", "quote(a)", "to-upper-case(\"é a\")", "calc(1px + 2%)", "calc(1px * 3)", "min(1px, 2px)", "max(1%, 2px)", "clamp(1px, 2px, 3px)", "type-of(1)", "inspect($b)", "join($c, d e)", "append($c, d, comma)", "1 == 1", "1 < 2", "not true", "true and false", "null or 1", "-$a", "+$a", "(1 + 2) * 3", "1/3", "(1/3)", "math.$pi", "1e3 * 1e3", "0.1 + 0.2", "math.div(1, 0)", "grayscale(#abc)", "invert(red)", "transparentize(red, .5)", "hsl(10, 20%, 30%)", "hsla(10, 20%, 30%, .4)", "rgb(1.5, 2.5, 3.5)", "#AbCdEf", "#abcf", "red", "Red", "transparent"]),
+    ];
+    leaf.prop_recursive(2, 8, 3, |inner| {
+        prop_oneof![
+            2 => (inner.clone(), inner.clone()).prop_map(|(a, b)| format!("{a} {b}")),
+            2 => (inner.clone(), inner.clone()).prop_map(|(a, b)| format!("{a}, {b}")),
+            1 => inner.clone().prop_map(|a| format!("({a})")),
+            1 => inner.clone().prop_map(|a| format!("[{a}]")),
+            1 => inner.clone().prop_map(|a| format!("a#{{{a}}}b")),
+            1 => inner.clone().prop_map(|a| format!("\"q #{{{a}}}\"")),
+            1 => inner.clone().prop_map(|a| format!("g({a})")),
+            1 => (inner.clone(), inner.clone()).prop_map(|(a, b)| format!("if(false, {a}, {b})")),
+        ]
+    })
+    .boxed()
+}
